@@ -299,13 +299,23 @@ class Prop:
                         self.models[line] = m
                         self.may_reject.add(line)
                         cs.append(Case(line, 'integer-edge'))
+        # `or` rules over every built-in and user type as alternatives (texts of C08's class or-forms): what is accepted is
+        # compared with the parser model; most of them are refused for their meaning, which is not C04's business
+        from props import c08
+        self.free = set()
+        for text in c08.or_forms(rng, 300 if tier == 'quick' else 5000):
+            line = 'stext ' + hx(text)
+            if line not in self.models:
+                self.free.add(line)
+                cs.append(Case(line, 'or-forms'))
         return cs
 
     may_reject = set()
+    free = set()
 
     def model_lines(self, lines, impl):
         # the parser model has no machine integers: it is not asked about rule values at their edge
-        return [None if l in self.may_reject else l for l in lines]
+        return [None if (l in self.may_reject or (l in self.free and o.startswith('rej'))) else l for l, o in zip(lines, impl)]
 
     def run_impl(self, lines):
         texts = [l.split(' ')[1] for l in lines]
